@@ -649,6 +649,12 @@ func CheckNoGlobalWrites(run *core.Run, prog *load.Program, rule string) {
 	n := 0
 	funcsOf(prog, func(pkgPath string, info *types.Info, fd *ast.FuncDecl, fn *types.Func) {
 		fname := load.FuncName(fn)
+		// a package's init functions run once, before anything else of the package: what they assign is
+		// the variable's initial value (a table that cannot be written as an initialiser because it refers
+		// back to functions that read it)
+		if fd.Recv == nil && fd.Name.Name == "init" && fn != nil && fn.Type().(*types.Signature).Params().Len() == 0 {
+			return
+		}
 		isGlobal := func(e ast.Expr) (*types.Var, bool) {
 			for {
 				switch x := ast.Unparen(e).(type) {
